@@ -675,3 +675,86 @@ def r_effect_siblings(rule, root=None):
         rule.ok("apply_effect: pixel (x, y) receives f(x, y)")
     else:
         rule.bad("effect|xy", "apply_effect must store f(x, y) at column x of row y", A.where(fn))
+
+
+REGION = "fidget-core/src/render/region.rs"
+
+
+def r_view_convention(rule, root=None):
+    """the sample position of a pixel is the documented screen-to-world map applied to it: centre of the
+    image at the origin (y one pixel up, so that +1 lies one pixel beyond the top edge), the *shorter* axis
+    spans -1..+1, y flipped; translation is applied before scaling"""
+    fn = A.find_fn(REGION, "screen_to_world", self_ty="RegionSize", root=root)
+    t = A.ftxt(fn["body"])
+    c = t.fmatch("letmut$C=(self.size.cast::<f32>()/2.0);")
+    facts = []
+    facts.append(("the centre is half the size", c is not None))
+    facts.append(("the centre's y is moved one pixel up", c is not None and t.fmatch("($C[1]-=1.0);", bind=c) is not None))
+    # the scale is 2 / (shorter side), however the shorter side is spelled
+    sc = None
+    for l in A.find(fn["body"], "Let"):
+        init = A.strip(l.get("init") or {})
+        if init.get("k") == "Binary" and init["op"] == "/" and A.lit_value(init["left"]) == 2.0:
+            den = str(A.ftxt(A.strip(init["right"])))
+            sc = (A.binding_name(l["pat"]), den)
+    short = sc is not None and sc[1] in ("(self.size.min()asf32)", "self.size.min()asf32", "(self.size.iter().copied().min().unwrap()asf32)", "(self.size[0].min(self.size[1])asf32)", "(self.size[1].min(self.size[0])asf32)")
+    facts.append(("the shorter side spans -1..+1 (scale = 2 / size.min())", bool(short)))
+    calls = [x for x in A.linear_calls(fn) if x["method"] in ("append_translation_mut", "append_nonuniform_scaling_mut", "append_scaling_mut", "append_translation", "append_nonuniform_scaling")]
+    names = [x["method"].replace("_mut", "") for x in calls]
+    facts.append(("translation to the centre is applied before the scaling", names == ["append_translation", "append_nonuniform_scaling"]))
+    tr = t.fmatch("$O.append_translation_mut(&(-$C));", bind=c) if c is not None else None
+    facts.append(("the translation is minus the centre", tr is not None))
+    v = t.fmatch("letmut$V=OVector::<f32,_>::from_element($S);") if sc is None else t.fmatch("letmut$V=OVector::<f32,_>::from_element(%s);" % sc[0])
+    facts.append(("y is flipped between screen and world", v is not None and t.fmatch("($V[1]*=-1.0);", bind=v) is not None and t.fmatch("$O.append_nonuniform_scaling_mut(&$V);", bind=v) is not None))
+    for what, ok in facts:
+        if ok:
+            rule.ok("screen_to_world: %s" % what, file=REGION, line=fn["ln"])
+        else:
+            rule.bad("view|%s" % what[:40], "RegionSize::screen_to_world: %s - not found (the documented map puts the shorter axis on -1..+1 with +1 one pixel beyond the edge)" % what, A.where(fn))
+
+
+def r_widen_2d(rule, root=None):
+    """the 2D worker evaluates at cfg.mat() * (i, j, 1): widening the 3x3 view matrix to the 4x4 the shape
+    takes must carry every entry (rows / columns 0, 1, 2 -> 0, 1, 3) and leave z alone"""
+    fn = A.find_fn(PIX, "new", self_ty="Worker", root=root)
+    body = fn["body"]
+    t = str(A.ftxt(A.value_view(body)))
+    emb = {0: 0, 1: 1, 2: 3}
+    want = {(i, j): (emb[i], emb[j]) for i in range(3) for j in range(3)}
+    got = None
+    rows = [c for c in A.find(body, "MethodCall") if c["method"] == "insert_row"]
+    cols = [c for c in A.find(body, "MethodCall") if c["method"] == "insert_column"]
+    views = [c for c in A.find(body, "MethodCall") if c["method"] == "copy_from"]
+    if len(rows) == 1 and len(cols) == 1 and not views:
+        ok_args = all(A.lit_value(c["args"][0]) == 2 and A.lit_value(c["args"][1]) == 0.0 for c in rows + cols if len(c["args"]) == 2)
+        src = "cfg.mat()" in t
+        z = [a for a in A.find(body, "Assign") if str(A.ftxt(a["left"])).endswith("[(2,2)]") and A.lit_value(a["right"]) == 1.0]
+        if ok_args and src and len(z) == 1:
+            got = dict(want)
+    elif views and not rows and not cols:
+        # identity + block copies: `dst.fixed_view_mut::<R, C>(r, c).copy_from(&src.fixed_view::<R, C>(r2, c2))`
+        got = {}
+        ident = "Matrix4::identity()" in t or "Matrix4::<f32>::identity()" in t
+        for c in views:
+            d_ = A.strip(c["recv"])
+            s_ = A.strip(c["args"][0])
+            s_ = A.strip(s_["e"]) if s_.get("k") == "Ref" else s_
+            m1 = re.fullmatch(r"::<(\d),(\d)>", (d_.get("turbofish") or "").replace(" ", "")) if d_.get("k") == "MethodCall" and d_["method"] == "fixed_view_mut" else None
+            m2 = re.fullmatch(r"::<(\d),(\d)>", (s_.get("turbofish") or "").replace(" ", "")) if s_.get("k") == "MethodCall" and s_["method"] == "fixed_view" else None
+            if not m1 or not m2 or m1.groups() != m2.groups() or not ident:
+                got = None
+                break
+            R_, C_ = int(m1.group(1)), int(m1.group(2))
+            dr, dc = [A.lit_value(a) for a in d_["args"]]
+            sr, sc_ = [A.lit_value(a) for a in s_["args"]]
+            for i in range(R_):
+                for j in range(C_):
+                    got[(sr + i, sc_ + j)] = (dr + i, dc + j)
+    if got is None:
+        rule.lost("how pixel::Worker::new widens cfg.mat() to 4x4 (insert_row / insert_column at 2, or identity + block copies)")
+        return
+    missing = sorted(k for k in want if got.get(k) != want[k])
+    if missing:
+        rule.bad("widen|entries", "pixel::Worker::new does not carry entries %s of cfg.mat() into the 4x4 transform (each (i, j) must land at (i', j') with 2 -> 3): a view with a perspective row / non-unit w is rendered as if it were affine" % missing, A.where(fn))
+    else:
+        rule.ok("the 3x3 view is embedded in the 4x4 transform entry by entry, z preserved", file=PIX, line=fn["ln"])
